@@ -29,7 +29,8 @@ def plan(tier, seed):
     ns, per = (8, 150) if q else (16, 2500)
     for k in range(ns):
         specs.append({"stratum": "json-permutations", "n": per, "k": k, "clean": True})
-    specs.append({"stratum": "basic-mixed-keys", "n": 400 if q else 8000, "k": 0, "clean": True})
+    for k in range(2 if q else 4):
+        specs.append({"stratum": "basic-mixed-keys", "n": 900 if q else 4000, "k": k, "clean": True})
     for k in range(2 if q else 8):
         specs.append({"stratum": "list-swap", "n": 700 if q else 6000, "k": k, "clean": True})
     if not q:
